@@ -969,6 +969,60 @@ def monitor_config(sc, log):
     return None
 
 
+def _printable(t):
+    return "".join(ch if 32 <= ord(ch) < 127 or ch == "\n" else "?" for ch in t)
+
+
+def run_ft_isolating(binary, lines, env=None):
+    """run_ft; when the process crashes or times out, every script is run again in a process of its own and the output of a
+    script whose process does not finish normally is 'CRASH <tail of the output>'"""
+    try:
+        return run_ft(binary, lines, env=env)
+    except common.ImplCrash:
+        outs = []
+        for l in lines:
+            try:
+                outs.extend(run_ft(binary, [l], env=env, timeout=90))
+            except common.ImplCrash as e:
+                outs.append("CRASH " + _printable(str(e)[-700:]))
+        return outs
+
+
+def monitor_drop_c04(sc, log):
+    """single flight for a cache dropped by its owner: monitor_c04, and a loader runs at most once per Load of its key"""
+    m = monitor_c04(sc, log)
+    if m:
+        return m
+    nload = {}
+    for act in sc.acts:
+        if act[1] == "L":
+            nload[act[2]] = nload.get(act[2], 0) + 1
+    nstart = {}
+    for (k, j, t) in log.starts:
+        nstart[k] = nstart.get(k, 0) + 1
+    for k, c in sorted(nstart.items()):
+        if c > nload.get(k, 0):
+            return ("overlap", "key %d: %d loader invocations for %d Load call(s) of that key" % (k, c, nload.get(k, 0)))
+    return None
+
+
+def run_drop_stream(chk, binary, stream, drops, monitor, what):
+    for sc in drops:
+        chk.count_case(stream, sc.line(), True)
+    for sc, whole in zip(drops, run_ft_isolating(binary, [sc.line() for sc in drops])):
+        if whole.startswith("CRASH"):
+            chk.monitor_fail("crash", sc.line(), whole[:1500], what + "the harness process running this script alone did not finish normally "
+                             "(a panic in a library goroutine ends the process): " + " ".join(whole[6:].split())[-400:])
+            continue
+        if whole.startswith("PANIC"):
+            chk.monitor_fail("panic", sc.line(), whole[:500], whole[:300])
+            continue
+        for log in split_trials(whole):
+            mf = monitor(sc, log)
+            if mf:
+                chk.monitor_fail("future-unresolved-after-cache-dropped" if mf[0] == "hang" else mf[0], sc.line(), log.text[:3000], what + mf[1])
+
+
 def monitor_items(chk, binary, items, monitor, chunk=120):
     """monitors only (used by the failing-input searches)"""
     outs = run_ft(binary, [it.line() for it in items], chunk=chunk)
